@@ -185,6 +185,8 @@ func report(id, tier string, seed int, sc *Sidecar, ld *Loaded, sums []*harnessS
 				reproduced = rr.Outcome == "panic" || rr.Outcome == "crash"
 			case "deadlock":
 				reproduced = rr.Outcome == "timeout"
+			case "hang":
+				reproduced = rr.Outcome == "timeout" || rr.Outcome == "crash" || rr.Outcome == "panic"
 			case "race":
 				reproduced = rr.Outcome == "crash" && strings.Contains(rr.Msg, "DATA RACE")
 			}
@@ -247,7 +249,7 @@ func report(id, tier string, seed int, sc *Sidecar, ld *Loaded, sums []*harnessS
 			switch k {
 			case "completed":
 				completed += n
-			case "panic", "assume", "infeasible", "deadlock":
+			case "panic", "assume", "infeasible", "deadlock", "hang":
 			default:
 				exhaustive = false
 			}
